@@ -409,6 +409,16 @@ enum E {
     D { p: u8, q: Option<bool> },
 }
 
+/// newtype variants whose payload can itself be null (an enum decoder that looks at the payload to decide "unit variant" gets these wrong)
+#[derive(Deserialize, Debug, PartialEq)]
+enum F {
+    O(Option<i32>),
+    U(()),
+    S(U),
+    V(Vec<i32>),
+    X,
+}
+
 #[derive(Deserialize, Debug, PartialEq)]
 struct W {
     e: E,
@@ -582,6 +592,32 @@ impl Dbg for U {
     }
 }
 
+impl Dbg for F {
+    fn dbg(&self, out: &mut Vec<String>) {
+        open(out, "var");
+        match self {
+            F::O(x) => {
+                out.push(hex(b"O"));
+                x.dbg(out);
+            }
+            F::U(x) => {
+                out.push(hex(b"U"));
+                x.dbg(out);
+            }
+            F::S(x) => {
+                out.push(hex(b"S"));
+                x.dbg(out);
+            }
+            F::V(x) => {
+                out.push(hex(b"V"));
+                x.dbg(out);
+            }
+            F::X => out.push(hex(b"X")),
+        }
+        close(out);
+    }
+}
+
 impl Dbg for E {
     fn dbg(&self, out: &mut Vec<String>) {
         open(out, "var");
@@ -664,7 +700,7 @@ fn case_de(fields: &[&str]) -> String {
         Ok(t) => t,
         Err(_) => return format!("BADCASE de {}", fields[1]),
     };
-    if ty > 32 {
+    if ty > 34 {
         return format!("BADCASE de {}", ty);
     }
     let var = parse_value(fields[2]);
@@ -703,6 +739,8 @@ fn case_de(fields: &[&str]) -> String {
         30 => run::<(i32,)>(var, val),
         31 => run::<Vec<(String, bool)>>(var, val),
         32 => run::<W>(var, val),
+        33 => run::<F>(var, val),
+        34 => run::<Vec<F>>(var, val),
         _ => unreachable!(),
     }
 }
